@@ -317,10 +317,11 @@ func summarizeCol(table *Table, col benchproc.Key, s *TableSummary, nBase int, i
 	}
 
 	// If the number of cells in this column that had a baseline
-	// is the same as the total number of baselines, then we know
-	// the benchmark sets match. Otherwise, they don't and these
-	// numbers are probably misleading.
-	if !isBase && nBase != len(ratios) {
+	// is the same as the total number of baselines, and every cell
+	// in this column had a baseline, then we know the benchmark
+	// sets match. Otherwise, they don't and these numbers are
+	// probably misleading.
+	if !isBase && (nBase != len(ratios) || len(summaries) != len(ratios)) {
 		s.Warnings = append(s.Warnings, fmt.Errorf("benchmark set differs from baseline; geomeans may not be comparable"))
 	}
 
